@@ -97,7 +97,7 @@ func auDirectives(c *auCase) string {
 
 // C19: audit and error logging record exactly what happened, once, intact.
 func C19(run *vf.Run) {
-	run.Rule = "Audit.tla: the audit decision (engine On / Off / RelevantOnly, switched or not by ctl:auditEngine; relevant-status pattern; status source = interruption, would-be interruption in DetectionOnly, or response status), the rules a record lists (fired and audit-enabled after folding log / nolog / auditlog / noauditlog in order over the phase defaults) and the error-callback count (once per fired rule with logging on) as TLA+ functions over the full case table; TLC enumerates the table and every case is replayed on the real library with a capturing audit writer registered through the plugin API and an error callback; then the serial writer is stressed: G goroutines x N transactions with adversarial header / body / message bytes share one log file in JSON and in native format, the file must hold exactly one well-formed record per transaction, none interleaved or lost. Non-trivial = case that writes a record or fires a callback"
+	run.Rule = "Audit.tla: the audit decision (engine On / Off / RelevantOnly, switched or not by ctl:auditEngine; relevant-status pattern; status source = interruption, would-be interruption in DetectionOnly, or response status), the rules a record lists (fired and audit-enabled after folding log / nolog / auditlog / noauditlog in order over the phase defaults) and the error-callback count (once per fired rule with logging on) as TLA+ functions over the full case table; TLC enumerates the table and every case is replayed on the real library with a capturing audit writer registered through the plugin API and an error callback; then a transaction that changes its own parts (ctl:auditLogParts=+X / -X) must still write a balanced native record; then the writers are stressed: the concurrent writer (one file per transaction + shared index, entries must not interleave) and the serial writer: G goroutines x N transactions with adversarial header / body / message bytes share one log file in JSON and in native format, the file must hold exactly one well-formed record per transaction, none interleaved or lost. Non-trivial = case that writes a record or fires a callback"
 	run.Exhaustive = true
 	run.Assume("RelevantOnly without SecAuditLogRelevantStatus is left open (either outcome accepted)")
 	c19once.Do(func() {
@@ -306,6 +306,7 @@ func c19Stress(run *vf.Run) {
 	if run.NumViolations() > 0 {
 		return
 	}
+	c19ConcurrentWriter(run, dir)
 	nasty := []string{"plain", "quo\"te", "new\nline", "--abcdefghij-Z--", "back\\slash", "tab\there", "unié\xff", "{\"json\":1}"}
 	G := vf.Pick(run, 8, 16)
 	N := vf.Pick(run, 150, 1500)
@@ -428,6 +429,91 @@ func c19Stress(run *vf.Run) {
 				What:   fmt.Sprintf("%d goroutines x %d transactions sharing one serial %s audit log: %d records missing, %d duplicated, malformed: %s", G, N, format, missing, dup, bad),
 				Replay: map[string]any{"family": "audit-stress", "directives": text, "goroutines": G, "transactions_each": N}})
 		}
+	}
+}
+
+// c19ConcurrentWriter: SecAuditLogType Concurrent - one file per transaction plus an index file shared by
+// all transactions; the index entry of a transaction (its lines are written one after the other) must not
+// be interleaved with another transaction's, and every transaction's own file must hold its record.
+func c19ConcurrentWriter(run *vf.Run, dir string) {
+	G := vf.Pick(run, 8, 16)
+	N := vf.Pick(run, 150, 1000)
+	index := filepath.Join(dir, "index.log")
+	store := filepath.Join(dir, "store")
+	_ = os.MkdirAll(store, 0o755)
+	text := fmt.Sprintf("SecRuleEngine On\nSecAuditEngine On\nSecAuditLogParts ABHZ\nSecAuditLogType Concurrent\nSecAuditLogFormat json\nSecAuditLog %s\nSecAuditLogStorageDir %s\nSecAction \"id:1,phase:1,pass,log,auditlog,msg:'m'\"\n", index, store)
+	w, err := coraza.NewWAF(coraza.NewWAFConfig().WithDirectives(text))
+	if err != nil {
+		run.Inconclusive("concurrent audit writer configuration rejected: %v", err)
+		return
+	}
+	var wg sync.WaitGroup
+	for g := 0; g < G; g++ {
+		wg.Add(1)
+		go func(g int) {
+			defer wg.Done()
+			for n := 0; n < N; n++ {
+				tx := w.NewTransactionWithID(fmt.Sprintf("ctx-%d-%d", g, n))
+				tx.ProcessConnection("10.0.0.1", 1000+g, "10.0.0.2", 80)
+				tx.ProcessURI(fmt.Sprintf("/u-%d-%d", g, n), "GET", "HTTP/1.1")
+				tx.ProcessRequestHeaders()
+				_, _ = tx.ProcessRequestBody()
+				tx.ProcessResponseHeaders(200, "HTTP/1.1")
+				tx.ProcessLogging()
+				_ = tx.Close()
+			}
+		}(g)
+	}
+	wg.Wait()
+	closeAny(w)
+	b, err := os.ReadFile(index)
+	if err != nil {
+		run.Violate(vf.Violation{Signature: "audit:concurrent-writer-no-index", What: "the index file of the concurrent audit writer was not written: " + err.Error(), Replay: map[string]any{"directives": text}})
+		return
+	}
+	lines := strings.Split(strings.TrimRight(string(b), "\n"), "\n")
+	seen := map[string]int{}
+	mixed, filesBad := 0, 0
+	firstMixed := ""
+	lastURI := ""
+	for _, l := range lines {
+		if strings.HasPrefix(strings.TrimSpace(l), "\"GET /u-") {
+			lastURI = strings.TrimPrefix(strings.Fields(strings.TrimSpace(l))[1], "/u-")
+			continue
+		}
+		if strings.HasPrefix(l, "ctx-") {
+			fs := strings.Fields(l)
+			id := strings.TrimPrefix(fs[0], "ctx-")
+			seen[fs[0]]++
+			if id != lastURI {
+				mixed++
+				if firstMixed == "" {
+					firstMixed = fmt.Sprintf("the entry closed by %q follows the request line of /u-%s", l, lastURI)
+				}
+			}
+			if len(fs) >= 3 {
+				doc, err := os.ReadFile(fs[2])
+				if err != nil || !strings.Contains(string(doc), fs[0]) {
+					filesBad++
+				}
+			}
+			lastURI = ""
+		}
+	}
+	missing := 0
+	for g := 0; g < G; g++ {
+		for n := 0; n < N; n++ {
+			if seen[fmt.Sprintf("ctx-%d-%d", g, n)] != 1 {
+				missing++
+			}
+		}
+	}
+	run.Eval("audit-stress-concurrent-writer")
+	run.Extra["audit_stress_concurrent_writer"] = map[string]any{"goroutines": G, "transactions_each": N, "index_entries": len(seen), "missing_or_duplicated": missing, "interleaved": mixed, "record_files_bad": filesBad}
+	if mixed > 0 || missing > 0 || filesBad > 0 {
+		run.Violate(vf.Violation{Signature: "audit:concurrent-records-not-intact|concurrent-writer",
+			What:   fmt.Sprintf("%d goroutines x %d transactions with SecAuditLogType Concurrent: %d index entries interleaved with another transaction's (%s), %d transactions without exactly one entry, %d record files missing or foreign", G, N, mixed, firstMixed, missing, filesBad),
+			Replay: map[string]any{"family": "audit-stress", "directives": text, "goroutines": G, "transactions_each": N}})
 	}
 }
 
